@@ -109,7 +109,10 @@ class Simulator(BaseSimObj):
         """
         if self.scheduler is None:
             raise TypeError("Add a scheduler before attempting to call" " run().")
-        while not self.event_queue.empty():
+        # _resolve is still set if a previous call to run() was interrupted (by an
+        # exception from the scheduler) after the last events were taken off the
+        # queue: that period must still be completed.
+        while not self.event_queue.empty() or self._resolve:
             current_events = self.event_queue.get_current_events(self._iteration)
             for e in current_events:
                 self.event_history.append(e)
